@@ -82,6 +82,8 @@ def FlipPolarity(F):
     """
     newF = CNF()
     newF.header = copy(F.header)
+    for name in F.all_variable_labels():
+        newF.new_variable(name)
     add_description(newF,"All polarities have been flipped")
 
     def subst(lit):
